@@ -61,6 +61,8 @@ pub struct RunReport {
     /// written-out history, kept only for the first few runs
     pub history: Value,
     pub fault_free: bool,
+    /// E2: the schedule actually taken, for turning a seeded case into an explicit one
+    pub explicit_choices: Option<Vec<u32>>,
 }
 
 impl RunReport {
@@ -368,7 +370,12 @@ pub fn run_check(ctx: &Ctx, property: &str, level: &str, tier: &str, seed: u64, 
             e.2 += *f;
         }
         for (k, v) in &r.probes {
-            *probes.entry(k.clone()).or_insert(0) += *v;
+            let e = probes.entry(k.clone()).or_insert(0);
+            if k.starts_with("max_") {
+                *e = (*e).max(*v);
+            } else {
+                *e += *v;
+            }
         }
         if r.nontrivial {
             shapes.insert(r.shape);
@@ -424,6 +431,10 @@ pub fn run_check(ctx: &Ctx, property: &str, level: &str, tier: &str, seed: u64, 
             if !classes.iter().any(|(_, c)| c.same_class(v)) {
                 classes.push((*idx, v.clone()));
             }
+        }
+        for (idx, v) in &classes {
+            let n = unknown.iter().filter(|(_, u)| u.same_class(v)).count();
+            println!("class: clause={} fingerprint={} first_case={} count={} :: {}", v.clause, v.fingerprint, idx, n, v.detail);
         }
         let dir = ctx.worker_dir(0);
         for (idx, v) in classes.iter().take(4) {
